@@ -224,7 +224,8 @@ fn shape_term(sh: &str, i: u64) -> Term {
         "lit-hash" => mk("lit", &format!("no #{i}"), "", "", sh),
         "lit-xmlspecial" => mk("lit", &format!("x<y>{i} & z"), "", "", sh),
         "lit-empty" => mk("lit", "", "", "", sh),
-        "lit-lang" => mk("lit", &format!("bonjour{i}"), "fr", "lang", sh),
+        // language tags: plain, with a region subtag, with digits in a later subtag (BCP 47: es-419, de-1996)
+        "lit-lang" => mk("lit", &format!("bonjour{i}"), ["fr", "en-GB", "es-419", "de-1996"][(i % 4) as usize], "lang", sh),
         "lit-dt" => mk("lit", &format!("{}", 5 + i), "http://www.w3.org/2001/XMLSchema#integer", "dt", sh),
         "lit-spaces" => mk("lit", &format!("a  b   c{i}"), "", "", sh),
         "lit-pnlike" => mk("lit", &format!("e:s{i}"), "", "", sh),
